@@ -11,6 +11,7 @@ _Bool uni_from_post(const char* ch, usize len, uint32 ret);
 _Bool c_Unicode_append(uint32 ch, struct String* str)
 __CPROVER_requires(g_outn == 0)
 __CPROVER_ensures(uni_append_post(ch, __CPROVER_return_value))
+__CPROVER_ensures((unsigned char)__CPROVER_return_value <= 1) /* discharges the canonical-bool clause r_Unicode_append_one relies on */
 __CPROVER_assigns(__CPROVER_object_whole(g_out); g_outn)
 ;
 /* fromString(ch, len): reads inside ch[0..len) only (pointer obligations + empty frame); the
@@ -32,4 +33,20 @@ __CPROVER_assigns()
 usize c_Unicode_length(char c)
 __CPROVER_ensures(__CPROVER_return_value <= 4)
 __CPROVER_assigns()
+;
+
+/* append(const uint32*, size, String&): the per-element append is replaced by a counting contract
+ * (its own behaviour is unit Unicode.append) */
+extern usize g_app_calls; extern _Bool g_app_all;
+_Bool r_Unicode_append_one(uint32 ch, struct String* str)
+__CPROVER_assigns(g_app_calls, g_app_all)
+__CPROVER_ensures(g_app_calls == __CPROVER_old(g_app_calls) + 1 && g_app_all == (__CPROVER_old(g_app_all) && __CPROVER_return_value))
+/* a C++ bool return is 0 or 1; CBMC's havocked c_bool may carry other bit patterns, which `result &= ...` would expose */
+__CPROVER_ensures((unsigned char)__CPROVER_return_value <= 1)
+;
+_Bool uni_append_arr_post(_Bool ret);
+_Bool c_Unicode_append_arr(const uint32* data, usize size, struct String* str)
+__CPROVER_requires(size <= NV_MAXSZ / 4 && (size == 0 || __CPROVER_r_ok(data, size * 4)))
+__CPROVER_ensures(uni_append_arr_post(__CPROVER_return_value))
+__CPROVER_assigns(g_app_calls, g_app_all)
 ;
